@@ -410,6 +410,7 @@ type c19obs struct {
 	inlineItems  int
 	inlineIndent int
 	codeActions  int // number of code actions offered (-1 not asked)
+	text         string // text of the probe document when the observation ended
 	execOK       bool
 	trouble      string
 	fmtLines     []string
@@ -589,7 +590,70 @@ func c19Observe(d *Driver, uri string, counter *int) c19obs {
 		o.trouble = "codeAction not answered"
 	}
 	o.execOK = d.Env.Exec.VersionOK
+	o.text = text
 	return o
+}
+
+// c19ObserveNoEdit asks, WITHOUT touching the document first, for what is
+// computed per request from the settings: ghost text (indent, switch) and code
+// actions (CLI binary). Whatever the server memoised for the same request
+// under the previous settings must not be served.
+func c19ObserveNoEdit(d *Driver, uri, text string) c19obs {
+	o := c19obs{codes: map[string]int{}, indent: -1, inlineIndent: -1, codeActions: -1, execOK: d.Env.Exec.VersionOK}
+	lastLine := 0
+	for i, l := range strings.Split(text, "\n") {
+		if l == "2024-02-01 probe" {
+			lastLine = i
+		}
+	}
+	if r := d.Call("textDocument/inlineCompletion", J{"textDocument": docID(uri), "position": pos(lastLine+1, 0)}); r != nil {
+		var il struct {
+			Items []struct {
+				InsertText string `json:"insertText"`
+			} `json:"items"`
+		}
+		json.Unmarshal(r.Result, &il)
+		o.inlineItems = len(il.Items)
+		if len(il.Items) > 0 {
+			first := strings.Split(il.Items[0].InsertText, "\n")[0]
+			o.inlineIndent = len(first) - len(strings.TrimLeft(first, " "))
+		}
+	} else {
+		o.trouble = "inlineCompletion not answered"
+		return o
+	}
+	if r := d.Call("verif/codeAction", J{"textDocument": docID(uri), "range": rng(0, 0, 0, 0), "context": J{"diagnostics": []any{}}}); r != nil {
+		var acts []json.RawMessage
+		json.Unmarshal(r.Result, &acts)
+		o.codeActions = len(acts)
+	} else {
+		o.trouble = "codeAction not answered"
+	}
+	return o
+}
+
+// c19CheckNoEdit judges the request-only observation.
+func c19CheckNoEdit(m cfgModel, o c19obs) (string, string) {
+	if o.trouble != "" {
+		return "totality", o.trouble
+	}
+	if p, ok := m.one("cli.path"); ok && o.codeActions >= 0 {
+		if en, ok := m.one("cli.enabled"); ok {
+			want := o.execOK && en == 1 && cliPaths[p] != "hledger-missing"
+			if (o.codeActions > 0) != want {
+				return "cli.path", fmt.Sprintf("cli.path is %q (installed: %v), cli.enabled is %v, but %d code actions are offered (no edit since the configuration changed)", cliPaths[p], o.execOK && cliPaths[p] != "hledger-missing", en == 1, o.codeActions)
+			}
+		}
+	}
+	if ic, ok := m.one("features.inlineCompletion"); ok {
+		if (o.inlineItems > 0) != (ic == 1) {
+			return "features.inlineCompletion", fmt.Sprintf("inlineCompletion is %v but the request returned %d items (no edit since the configuration changed)", ic == 1, o.inlineItems)
+		}
+		if o.inlineItems > 0 && !m.has("formatting.indentSize", o.inlineIndent) {
+			return "formatting.indentSize", fmt.Sprintf("inline completion text is indented by %d; acceptable: %v (no edit since the configuration changed)", o.inlineIndent, keysInt(m["formatting.indentSize"]))
+		}
+	}
+	return "", ""
 }
 
 func minInt(a, b int) int {
@@ -787,6 +851,7 @@ func (c19) Run(ctx *RunCtx) {
 	never := map[string]bool{}
 	var alts []cfgModel // models under other application orders of replies that were in flight together
 	nEvents := c.Range("events", 0, 4)
+	lastText := ""
 	for ev := 0; ev <= nEvents; ev++ {
 		pulledFrom := -1 // index into Sess.Out from which a configuration request counts as a pull of this change
 		pendingAtNotify := 0
@@ -875,7 +940,25 @@ func (c19) Run(ctx *RunCtx) {
 				return
 			}
 		}
+		if lastText != "" && c.Pct("observe-without-edit", 40) {
+			o0 := c19ObserveNoEdit(d, uri, lastText)
+			ctx.Stats.Inc("probe:observed-without-an-edit-since-the-configuration-changed")
+			ctx.T("observed after event %d without an edit: inline=%d/%d codeActions=%d  model=%s", ev, o0.inlineItems, o0.inlineIndent, o0.codeActions, model)
+			if key, msg := c19CheckNoEdit(model, o0); key != "" {
+				explained := false
+				for _, alt := range alts {
+					if k2, _ := c19CheckNoEdit(alt, o0); k2 == "" {
+						explained = true // judged (and adopted) by the full observation below
+					}
+				}
+				if !explained {
+					fail("ineffective:"+key, fmt.Sprintf("after configuration event %d: %s (model: %s)", ev, msg, model), map[string]any{"key": key})
+					return
+				}
+			}
+		}
 		o := c19Observe(d, uri, &counter)
+		lastText = o.text
 		ctx.T("observed after event %d: codes=%v depthMsg=%d sizeMsg=%d completion=%d counts=%v fuzzy=%d indent=%d aligned=%v col=%d inline=%d/%d codeActions=%d  model=%s fmt=%q", ev, o.codes, o.depthMsg, o.sizeMsg, o.complCount, o.complCounts, o.fuzzyCount, o.indent, o.aligned, o.amountCol, o.inlineItems, o.inlineIndent, o.codeActions, model, o.fmtLines)
 		if key, msg := c19Check(model, o); key != "" {
 			adopted := false
